@@ -178,7 +178,7 @@ fn first_term_string(p: &Program) -> Option<(StringStyle, Vec<StrSegment>)> {
         p,
         &mut |t| {
             if out.is_none() {
-                if let Term::String(st, segs) = t {
+                if let Term::String(st, segs, ..) = t {
                     out = Some((*st, segs.clone()));
                 }
             }
